@@ -19,6 +19,12 @@ TRUSTED = [
     "tools/go2coq mode pipe (go/parser AST -> shallow Gallina definition and call tree of each PipeN; let-bound names substituted)",
     "modelled, not verified: Go's evaluation order of nested calls (operands before the call) as Base/CallTree.calls",
 ]
+CLAIM = {
+  "text": "Per-arity theorems (N=2..20) proved by the Coq kernel about definitions regenerated from internal/pipe/pipe.go on every run: PipeN f1..fN a = fN(..(f1 a)) for all types, functions and arguments, and the body's call tree calls each parameter exactly once in supply order. The generated definitions are additionally run against the real code on non-commuting function families.",
+  "design_ref": "DESIGN.md 3/C20",
+  "note": "Trusted: Coq kernel + vm_compute, tools/go2coq (AST -> Gallina), Go's evaluation order for nested calls as modelled by CallTree.calls; user functions total and pure.",
+  "technique": "Coq proof over translator-regenerated definitions + differential run of model vs code",
+ }
 ASSUMPTIONS = [
     "the functions passed to PipeN are total and side-effect free (the call-count claim is about the call tree of the body)",
     "int64 arithmetic of the coded families does not overflow (inputs are bounded so that it cannot)",
